@@ -1,13 +1,15 @@
 import vlib, common
 
-RULE = "window: the store's Mutate is parked so that an insertion is held between 'computed' and 'persisted'; membership (old event at old and current version, the event being inserted) and consistency queries are issued from other goroutines in that window; each must wait or answer from a consistent state: the observed schedule (which queries returned before the write, what version they saw) must be one the lock-discipline model permits, and every answer must verify against the issued snapshots or be the pre-insertion answer. thorough: the same under the Go race detector failwrite: a store write that fails on a running node must not leave it answering from a half-applied insertion."
+RULE = "window: the store's Mutate is parked so that an insertion is held between 'computed' and 'persisted'; membership (old event at old and current version, the event being inserted) and consistency queries are issued from other goroutines in that window; each must wait or answer from a consistent state: the observed schedule (which queries returned before the write, what version they saw) must be one the lock-discipline model permits, and every answer must verify against the issued snapshots or be the pre-insertion answer. thorough: the same under the Go race detector, plus the `http` command (concurrent requests through the real HTTP handlers) under the race detector. failwrite: a store write that fails on a running node must not leave it answering from a half-applied insertion."
 CMDS = ['window', 'stress', 'failwrite']
+# thorough: the HTTP handlers too run under the race detector (concurrent requests through the real apihttp/mgmthttp muxes)
+CMDS_THOROUGH = CMDS + ['http']
 CASES = {'window': ('run_window_cases', 'C10_queries_see_consistent_state (Fsm/Window.v vs RaftNode.applyMu)')}
 
 
 def run(v, tier, seed, replay):
     vlib.coq_stage(v, "C10")
-    s, results = common.node_session(v, "C10", CMDS, tier, seed, RULE, race=(tier == "thorough"))
+    s, results = common.node_session(v, "C10", CMDS_THOROUGH if tier == "thorough" else CMDS, tier, seed, RULE, race=(tier == "thorough"))
     try:
         common.compare_cases(v, s, results, "C10", CASES, seed, tier)
     finally:
